@@ -1529,12 +1529,14 @@ redial_raw_case(long idx, vf_rng *r, uint64_t key, int tran)
 	int             nat    = (int) vf_range(r, 6, 18);
 	// back-off run: larger reconnect times, >= 10 consecutive failed dials,
 	// one good connection (resets the back-off), three more failures; every
-	// delay is judged against the back-off the dialer should be at
-	static const int bkpairs[2][2] = { { 50, 400 }, { 100, 0 } };
+	// delay is judged against max(RECONNMINT, RECONNMAXT) + 200 ms
+	// (max/min is deliberately not a power of two in most pairs: a doubling
+	// that is not clamped then overshoots the maximum by almost a factor two)
+	static const int bkpairs[5][2] = { { 49, 400 }, { 98, 400 }, { 390, 400 }, { 50, 400 }, { 100, 0 } };
 	bool             bk = vf_chance(r, 1, 5);
 	int              rmin = reconn[rc][0], rmax = reconn[rc][1];
 	if (bk) {
-		int b = (int) vf_below(r, 2);
+		int b = (int) vf_below(r, 5);
 		rmin  = bkpairs[b][0];
 		rmax  = bkpairs[b][1];
 		late  = false;
@@ -1608,7 +1610,8 @@ redial_raw_case(long idx, vf_rng *r, uint64_t key, int tran)
 		}
 		if (bk && !warmup_case && last_wait_delay_ms >= 0 && a > 0 && since_reset > 0) {
 			// this wait followed failure number since_reset since the reset
-			long u = backoff_limit(c.rmin, c.rmax, since_reset - 1);
+			// the property's bound: the larger configured reconnect time
+			long u = c.bound;
 			if (last_wait_hb_ms < 50) {
 				vf_stat("backoff_delays_judged", 1);
 				if (last_wait_delay_ms > u + 200) {
@@ -1752,7 +1755,7 @@ redial_raw_case(long idx, vf_rng *r, uint64_t key, int tran)
 		if (bk_exceed >= 2) {
 			char vk[128];
 			snprintf(vk, sizeof(vk), "C14/redial-backoff/%s/reconn=%d-%d", c.tran, c.rmin, c.rmax);
-			vf_violation(vk, "%s %s reconnect min/max %d/%d ms: %d redial delays of one run of consecutive failed dials exceeded the back-off the dialer should have been at by more than 200 ms (worst: %ld ms over the limit after %d failures since the last established pipe) while the harness timer thread never stalled 50 ms",
+			vf_violation(vk, "%s %s reconnect min/max %d/%d ms: %d redial delays of one run of consecutive failed dials exceeded the larger configured reconnect time by more than 200 ms (worst: %ld ms over it, after %d failures since the last established pipe) while the harness timer thread never stalled 50 ms",
 			    c.tran, pname, c.rmin, c.rmax, bk_exceed, bk_worst, bk_worst_i);
 		}
 	}
